@@ -345,6 +345,30 @@ def narrowing(ctx, repo):
     def atom_for(series):
         def atom(node):
             t = ast.unparse(node)
+            if isinstance(node, ast.UnaryOp) and isinstance(node.op, ast.Not) and isinstance(node.operand, ast.ListComp):
+                # `not [v for v in s.unique() if v not in (0, 1)]` is `len([...]) == 0`
+                lt = f"len({ast.unparse(node.operand)})"
+                if series in lt and _mentions_only_0_1(lt + " == 0") and " in " in lt and "not " in lt:
+                    return "ZERO_ONE"
+            if isinstance(node, ast.Call) and isinstance(node.func, ast.Name) and node.func.id in gt.functions and node.func.id != main.name and len(node.args) == 1 and not node.keywords:
+                # a predicate helper of one argument: read its body as one expression over the argument
+                from staticlib.ordersem import NotExpressible, function_as_expression
+                h = gt.functions[node.func.id]
+                if len(h.args.args) == 1:
+                    try:
+                        he = function_as_expression(h)
+                    except NotExpressible:
+                        he = None
+                    if he is not None:
+                        par_ = h.args.args[0].arg
+                        class _S(ast.NodeTransformer):
+                            def visit_Name(self, n):
+                                return ast.copy_location(ast.parse(ast.unparse(node.args[0]), mode="eval").body, n) if n.id == par_ else n
+                        he = ast.fix_missing_locations(_S().visit(he))
+                        he = ast.parse(ast.unparse(he), mode="eval").body
+                        inner = atom(he)
+                        if inner is not None:
+                            return inner
             if isinstance(node, ast.Call):
                 fn_ = ast.unparse(node.func)
                 args = [ast.unparse(a) for a in node.args]
